@@ -42,8 +42,8 @@ claimed = {
    "prover and verifier consume the same challenges and leave the same remainder after every prefix of any operation history, and every check accepts; a proof verified under another challenge is accepted iff h*g*(xi'-xi)*(p(beta)-p(z)) = 0; harness: histories of open/batch_open/open_combinations on one pre-seeded logging sponge, event lists and end states compared after every prefix, perturbed pre-states and displaced proofs must be refused (all schemes)."),
  "C14": ("Lean proof (space = time outputs for every coefficient list; verify iff; fold iterators enumerate the foldings for every length) + exhaustive iterator correspondence",
    "18 theorems: Space.open = Time.open, commit, multi-point quotient/remainder, verify/verify_multi_points completeness and exact acceptance, FoldedPolynomialTree/Stream = naive fold for all lengths, commit_folding/open_folding offsets; harness: time vs space vs model for degrees 0..256, 1..8 points, 1..8 polynomials, six buffer sizes, both verifier keys; all lengths 1..130 x depths 0..7."),
- "C15": ("Lean proof (divideAtPoint exact for every sparse polynomial; Combinations iterator sound for all inputs; setup enumeration complete on the 6x6 grid by decide +kernel; PST13 completeness) + real-setup correspondence",
-   "16 theorems incl. pst13_complete(_list), trim keeps exactly degree <= s; partial: general-(n,D) completeness of the enumeration (proved on the property's whole grid). Harness: Combinations hook vs model, real setup on the grid (key set = all exponent vectors, every element = m(beta)*g, pairing relations), trapdoor-mode commit/open/check with mutations."),
+ "C15": ("Lean proof (divideAtPoint exact for every sparse polynomial; Combinations iterator sound and complete for all inputs; setup enumerates exactly the C(n+D,D) monomials for all n, D; PST13 completeness) + real-setup correspondence",
+   "19 theorems incl. combinations_complete, setupTerms_complete (all n, D: no duplicates, exactly the monomials of degree <= D, C(n+D,D) of them; order additionally kernel-decided on the 6x6 grid), pst13_complete(_list), pst13_end_to_end, trim keeps exactly degree <= s. Harness: Combinations hook vs model, real setup on the grid (key set = all exponent vectors, every element = m(beta)*g, pairing relations), trapdoor-mode commit/open/check with mutations."),
  "C19": ("Lean proof (shape theorems of the prover models, batch proof count, linear-code dimension inequalities) + measured serialized sizes against each scheme's law",
    "KZG/Marlin/Sonic proof = 1 element (+1 scalar iff hiding), commitment +1 element iff bound, one proof per distinct point label; PST13 nv elements; IPA 2*log2(d+1); Hyrax 2^(n/2); linear codes: constant commitment, proof within 4x of the best power-of-two matrix shape once t < codeword length. Partial: the full-ceiling inequality and the f64 sqrt are tied by correspondence."),
  "C13": ("Lean proof (exact integer form of the soundness bound, tSpec least, index range, RS and Brakedown encoders linear) + calculate_t vs exact bound on a grid",
